@@ -8,6 +8,7 @@ lawful: distinct keys may compare equal, as with the case-folding comparator).
 import Gkv.Proofs.TreapSet
 import Gkv.Proofs.TreapDel
 import Gkv.Proofs.FlushFrame
+import Gkv.Proofs.WorldMachine
 open Std
 
 namespace Gkv.Props.C01
@@ -93,6 +94,21 @@ theorem validItem_iff (key : Bytes) (val : Option Bytes) (prio : Int) :
 theorem flush_invisible (cs : List Coll) (s : FileSt) :
     (flushStore cs s).1.map (fun c => (c.name, c.cmp, c.root.eraseLocs)) =
       cs.map (fun c => (c.name, c.cmp, c.root.eraseLocs)) := flushStore_eraseLocs cs s
+
+/-! ### the theorem is about the function the tests run -/
+
+/-- The executable history interpreter `World.stepTokens` (the very function `gkvdrive` folds over
+    the operation lines of every correspondence run), started on a fresh file and fed the lines of
+    ANY admissible history of collection operations, Set/Delete, Flush and re-open, shows exactly
+    the sorted-map specification's contents (`Proofs/WorldMachine.lean` proves the interpreter
+    simulates the machine of `Machine.refinement` step by step). -/
+theorem driver_refines_sorted_maps (s f : Nat) (ops : List Gkv.Machine.SOp)
+    (hok : Gkv.Machine.HistOK cmpOfName ops) (hvalid : ∀ op ∈ ops, Gkv.ValidOp op) :
+    (Gkv.machineOf (ops.foldl (fun w op => (stepTokens w (Gkv.renderOp s f op)).1)
+        (stepTokens { files := [], stores := [] } ["open", toString s, toString f]).1) s f).map
+        Gkv.Machine.absS
+      = some (Gkv.Machine.specRun cmpOfName ops).cur :=
+  Gkv.world_refines_spec_reset s f ops hok hvalid
 
 -- non-vacuity: a concrete history with an overwrite and a delete
 example : (([Mut.set ⟨[1], [10], 5⟩, .set ⟨[2], [20], 9⟩, .set ⟨[1], [11], 1⟩, .del [2]] : List Mut).foldl
